@@ -3,17 +3,61 @@
    spec_ok  = the observation satisfies the specification (oracle; does not use the model;
               spec_binary_eval is proved equal to Spec.spec_binary in ProofsInt). *)
 From Coq Require Import ZArith Bool List.
+From Coq Require Floats.SpecFloat.
 From SV Require Import Common.GoInt C10.Model C10.Spec C10.ProofsInt.
 Import ListNotations.
+Import Floats.SpecFloat.
 Open Scope Z_scope.
+
+(* observed values *)
+Inductive obs :=
+| OInt (z : Z)
+| OFloat (bits : Z)
+| OBool (b : bool)
+| OInts (l : list Z)
+| OStr (s : list Z)
+| OErr.
 
 Inductive case :=
 | CBin (fallback : bool) (o : binop) (x y : Z) (r : option Z) (arm : nat)
 | CCmp (fallback : bool) (c : cmpop) (x y : Z) (r : bool)
-| CUn (fallback : bool) (o : unop) (x : Z) (r : Z) (arm : nat).
+| CUn (fallback : bool) (o : unop) (x : Z) (r : Z) (arm : nat)
+| CCmpIF (fallback : bool) (c : cmpop) (x : Z) (f : Z) (r : bool)
+| CCmpFI (fallback : bool) (c : cmpop) (f : Z) (x : Z) (r : bool)
+| CMixIF (fallback : bool) (o : flop) (x : Z) (f : Z) (r : obs)
+| CMixFI (fallback : bool) (o : flop) (f : Z) (x : Z) (r : obs)
+| CTrueDiv (fallback : bool) (x y : Z) (r : obs)
+| CFloatOfInt (fallback : bool) (x : Z) (r : obs)
+| CIntOf (fallback : bool) (which : nat) (x : num) (r : obs) (arm : nat)   (* 0 int(), 1 math.floor, 2 math.ceil *)
+| CRngLen (a b c : Z) (r : obs)
+| CRngIdx (a b c i : Z) (r : obs)
+| CRngIn (fallback : bool) (a b c : Z) (y : num) (r : obs)
+| CRngList (a b c : Z) (r : obs)
+| CRngEq (a b c d e f : Z) (neq : bool) (r : obs)
+| CRngSlice (a b c : Z) (lo hi st : option Z) (len_only : bool) (r : obs)
+| CEnum (fallback : bool) (start : Z) (n : nat) (r : obs)
+| CParse (s : list Z) (base : option Z) (r : obs)
+| CPrint (base : Z) (z : Z) (s : list Z).
 
 Definition optZ_eqb (a b : option Z) : bool :=
   match a, b with Some x, Some y => x =? y | None, None => true | _, _ => false end.
+
+Fixpoint listZ_eqb (a b : list Z) : bool :=
+  match a, b with
+  | [], [] => true
+  | x :: s, y :: t => (x =? y) && listZ_eqb s t
+  | _, _ => false
+  end.
+
+(* floats are compared as values of the datatype; all NaNs are one value *)
+Definition float_eqb (a b : float) : bool :=
+  match a, b with
+  | S754_zero s, S754_zero t => Bool.eqb s t
+  | S754_infinity s, S754_infinity t => Bool.eqb s t
+  | S754_nan, S754_nan => true
+  | S754_finite s m e, S754_finite t n g => Bool.eqb s t && (Zpos m =? Zpos n) && (e =? g)
+  | _, _ => false
+  end.
 
 (* arm: 1 = small arm, 2 = *big.Int arm, 0 = not an Int *)
 Definition arm_of (I : int_impl) (x : T I) : nat :=
@@ -28,6 +72,50 @@ Definition res_eqb (I : int_impl) (m : option (T I)) (r : option Z) (arm : nat) 
 
 Definition impl_of (fb : bool) : int_impl := if fb then fallback_impl else union_impl.
 
+Definition float_res_eqb (m : res float) (r : obs) : bool :=
+  match m, r with
+  | Ok f, OFloat b => float_eqb f (float_of_bits b)
+  | Err, OErr => true
+  | _, _ => false
+  end.
+
+Definition int_res_eqb (I : int_impl) (m : res (T I)) (r : obs) (arm : nat) : bool :=
+  match m, r with
+  | Ok v, OInt z => (value I v =? z) && Nat.eqb (arm_of I v) arm
+  | Err, OErr => true
+  | _, _ => false
+  end.
+
+Definition bool_res_eqb (m : res bool) (r : obs) : bool :=
+  match m, r with
+  | Ok a, OBool b => Bool.eqb a b
+  | Err, OErr => true
+  | _, _ => false
+  end.
+
+Definition ints_res_eqb (m : res (list Z)) (r : obs) : bool :=
+  match m, r with
+  | Ok a, OInts b => listZ_eqb a b
+  | Err, OErr => true
+  | _, _ => false
+  end.
+
+Definition mk_num (I : int_impl) (y : num) : num := y.
+
+(* the elements of a (possibly sliced) range, through the iterator *)
+(* only short sequences are ever materialised (the harness lists at most 1000 elements) *)
+Definition range_elems (r : rangeValue) : list Z :=
+  if 1000 <? r_len r then [] else range_iterate (Z.to_nat (Z.max 0 (r_len r))) r 0.
+
+Definition model_slice (a b c : Z) (lo hi st : option Z) : res rangeValue :=
+  match range_ [a; b; c] with
+  | Ok r => match slice_indices (r_len r) lo hi st with
+            | Ok (s, e, k) => match range_slice r s e k with Some q => Ok q | None => Err end
+            | Err => Err
+            end
+  | Err => Err
+  end.
+
 Definition model_ok (c : case) : bool :=
   match c with
   | CBin fb o x y r arm =>
@@ -36,9 +124,115 @@ Definition model_ok (c : case) : bool :=
       let I := impl_of fb in Bool.eqb (Compare I c (MakeBigInt I x) (MakeBigInt I y)) r
   | CUn fb o x r arm =>
       let I := impl_of fb in res_eqb I (Some (Unary I o (MakeBigInt I x))) (Some r) arm
+  | CCmpIF fb c x f r => let I := impl_of fb in Bool.eqb (Compare_if I c (MakeBigInt I x) (float_of_bits f)) r
+  | CCmpFI fb c f x r => let I := impl_of fb in Bool.eqb (Compare_fi I c (float_of_bits f) (MakeBigInt I x)) r
+  | CMixIF fb o x f r => let I := impl_of fb in float_res_eqb (Binary_if I o (MakeBigInt I x) (float_of_bits f)) r
+  | CMixFI fb o f x r => let I := impl_of fb in float_res_eqb (Binary_fi I o (float_of_bits f) (MakeBigInt I x)) r
+  | CTrueDiv fb x y r => let I := impl_of fb in float_res_eqb (Binary_ii_div I (MakeBigInt I x) (MakeBigInt I y)) r
+  | CFloatOfInt fb x r => let I := impl_of fb in float_res_eqb (finiteFloat I (MakeBigInt I x)) r
+  | CIntOf fb w x r arm =>
+      let I := impl_of fb in
+      int_res_eqb I (match w with 0%nat => NumberToInt I x | 1%nat => math_floor I x | _ => math_ceil I x end) r arm
+  | CRngLen a b c r =>
+      match range_ [a; b; c], r with
+      | Ok q, OInt n => r_len q =? n
+      | Err, OErr => true
+      | _, _ => false
+      end
+  | CRngIdx a b c i r =>
+      match range_ [a; b; c] with
+      | Ok q => match range_getIndex q i, r with Ok x, OInt z => x =? z | Err, OErr => true | _, _ => false end
+      | Err => match r with OErr => true | _ => false end
+      end
+  | CRngIn fb a b c y r =>
+      let I := impl_of fb in
+      match range_ [a; b; c] with
+      | Ok q => bool_res_eqb (range_has I q y) r
+      | Err => match r with OErr => true | _ => false end
+      end
+  | CRngList a b c r =>
+      ints_res_eqb (match range_ [a; b; c] with Ok q => Ok (range_elems q) | Err => Err end) r
+  | CRngEq a b c d e f neq r =>
+      match range_ [a; b; c], range_ [d; e; f] with
+      | Ok p, Ok q => bool_res_eqb (Ok (xorb neq (rangeEqual p q))) r
+      | _, _ => match r with OErr => true | _ => false end
+      end
+  | CRngSlice a b c lo hi st len_only r =>
+      match model_slice a b c lo hi st with
+      | Ok q => if len_only then (match r with OInt n => r_len q =? n | _ => false end)
+                else ints_res_eqb (Ok (range_elems q)) r
+      | Err => match r with OErr => true | _ => false end
+      end
+  | CEnum fb start n r => let I := impl_of fb in ints_res_eqb (enumerate_indices I start n) r
+  | CParse s base r =>
+      match int_of_string s base, r with
+      | Some z, OInt w => z =? w
+      | None, OErr => true
+      | _, _ => false
+      end
+  | CPrint base z s => listZ_eqb (print_int base z) s
   end.
 
 Definition arm_spec (z : Z) : nat := if in_int32 z then 1%nat else 2%nat.
+
+(* |x - n1/d1| <= |x - n2/d2|, denominators positive *)
+Definition closer_eq (x n1 d1 n2 d2 : Z) : bool := Z.abs (x * d1 - n1) * d2 <=? Z.abs (x * d2 - n2) * d1.
+Definition closer (x n1 d1 n2 d2 : Z) : bool := Z.abs (x * d1 - n1) * d2 <? Z.abs (x * d2 - n2) * d1.
+
+(* value of a float as a fraction, with an infinity read as +-2^1024 (the next
+   value of the unbounded format), for the nearest-neighbour test *)
+Definition frac_of (f : float) : option (Z * Z) :=
+  match f with
+  | S754_zero _ => Some (0, 1)
+  | S754_infinity s => Some ((if s then -1 else 1) * 2 ^ 1024, 1)
+  | S754_nan => None
+  | S754_finite s m e => let n := if s then Zneg m else Zpos m in
+                         if 0 <=? e then Some (n * 2 ^ e, 1) else Some (n, 2 ^ (- e))
+  end.
+
+Definition even_mantissa (f : float) : bool :=
+  match f with S754_finite _ m _ => Z.even (Zpos m) | _ => true end.
+
+(* f is the binary64 value nearest to the integer x, ties to even *)
+Definition nearest_even (x : Z) (f : float) : bool :=
+  match frac_of f, frac_of (SFsucc 53 1024 f), frac_of (SFpred 53 1024 f) with
+  | Some (n, d), Some (ns, ds), Some (np, dp) =>
+      valid_float f &&
+      (closer x n d ns ds || (closer_eq x n d ns ds && even_mantissa f)) &&
+      (closer x n d np dp || (closer_eq x n d np dp && even_mantissa f))
+  | _, _, _ => false
+  end.
+
+(* float(x) / x.Float(): the nearest float, or an error when that is an infinity *)
+Definition spec_float_of_int (x : Z) (r : obs) : bool :=
+  let overflow := 2 ^ 1024 - 2 ^ 970 <=? Z.abs x in
+  match r with
+  | OErr => overflow
+  | OFloat b => negb overflow && nearest_even x (float_of_bits b)
+  | _ => false
+  end.
+
+Definition spec_int_res (z : option Z) (r : obs) (arm : nat) : bool :=
+  match z, r with
+  | Some z, OInt w => (z =? w) && Nat.eqb arm (arm_spec z)
+  | None, OErr => true
+  | _, _ => false
+  end.
+
+(* a range the implementation must construct, and those it may (must) reject *)
+Definition rng_args_ok (a b c : Z) : bool :=
+  in_int64 a && in_int64 b && in_int64 c && negb (c =? 0) && (seq_len a b c <=? max_int64).
+
+Definition spec_elems (a c first k cnt : Z) : list Z :=
+  if 1000 <? cnt then [] else map (fun j => seq_at a c (first + Z.of_nat j * k)) (seq 0 (Z.to_nat cnt)).
+
+
+Definition canonical_digits (base : Z) (s : list Z) : bool :=
+  match s with
+  | [] => false
+  | [c] => (0 <=? spec_digit c) && (spec_digit c <? base) && negb ((65 <=? c) && (c <=? 90))
+  | c :: _ => negb (c =? 48) && forallb (fun c => (0 <=? spec_digit c) && (spec_digit c <? base) && negb ((65 <=? c) && (c <=? 90))) s
+  end.
 
 Definition spec_ok (c : case) : bool :=
   match c with
@@ -46,4 +240,87 @@ Definition spec_ok (c : case) : bool :=
       optZ_eqb (spec_binary_eval o x y) r && match r with Some z => Nat.eqb arm (arm_spec z) | None => true end
   | CCmp _ c x y r => Bool.eqb (spec_compare c x y) r
   | CUn _ o x r arm => (spec_unary o x =? r) && Nat.eqb arm (arm_spec r)
+  | CCmpIF _ c x f r => Bool.eqb (spec_compare_if c x (float_of_bits f)) r
+  | CCmpFI _ c f x r => Bool.eqb (spec_compare_fi c (float_of_bits f) x) r
+  | CMixIF _ _ x _ r | CMixFI _ _ _ x r =>
+      (* the int operand must convert (error iff it rounds to an infinity); the float result is the hardware's *)
+      match r with OErr => true | OFloat _ => negb (2 ^ 1024 - 2 ^ 970 <=? Z.abs x) | _ => false end
+  | CTrueDiv _ x y r =>
+      match r with
+      | OErr => (y =? 0) || (2 ^ 1024 - 2 ^ 970 <=? Z.abs x) || (2 ^ 1024 - 2 ^ 970 <=? Z.abs y)
+      | OFloat _ => negb (y =? 0) | _ => false end
+  | CFloatOfInt _ x r => spec_float_of_int x r
+  | CIntOf _ w x r arm =>
+      spec_int_res (match x with
+                    | NInt z => Some z
+                    | NFloat f => match w with 0%nat => spec_int_of_float f | 1%nat => spec_floor f | _ => spec_ceil f end
+                    end) r arm
+  | CRngLen a b c r =>
+      match r with
+      | OInt n => rng_args_ok a b c && (n =? seq_len a b c)
+      | OErr => negb (rng_args_ok a b c)
+      | _ => false
+      end
+  | CRngIdx a b c i r =>
+      let n := seq_len a b c in
+      let j := if i <? 0 then i + n else i in
+      match r with
+      | OInt z => rng_args_ok a b c && in_int32 i && (0 <=? j) && (j <? n) && (z =? seq_at a c j)
+      | OErr => negb (rng_args_ok a b c && in_int32 i && (0 <=? j) && (j <? n))
+      | _ => false
+      end
+  | CRngIn _ a b c y r =>
+      match r, spec_range_has a b c y with
+      | OBool v, Some w => rng_args_ok a b c && Bool.eqb v w
+      | OErr, None => true
+      | OErr, Some _ => negb (rng_args_ok a b c)
+      | _, _ => false
+      end
+  | CRngList a b c r =>
+      match r with
+      | OInts l => rng_args_ok a b c && (seq_len a b c <=? 1000) && listZ_eqb l (seq_list a b c)
+      | OErr => negb (rng_args_ok a b c)
+      | _ => false
+      end
+  | CRngEq a b c d e f neq r =>
+      match r with
+      | OBool v =>
+          rng_args_ok a b c && rng_args_ok d e f &&
+          (* two arithmetic progressions are equal iff they have the same length and agree on their first two elements *)
+          let n := seq_len a b c in
+          Bool.eqb v (xorb neq ((n =? seq_len d e f) &&
+                                ((n <=? 0) || (seq_at a c 0 =? seq_at d f 0)) &&
+                                ((n <=? 1) || (seq_at a c 1 =? seq_at d f 1))))
+      | OErr => negb (rng_args_ok a b c && rng_args_ok d e f)
+      | _ => false
+      end
+  | CRngSlice a b c lo hi st len_only r =>
+      let n := seq_len a b c in
+      let k := match st with Some k => k | None => 1 end in
+      let legal := rng_args_ok a b c && opt_in32 lo && opt_in32 hi && opt_in32 st && negb (k =? 0) in
+      let '(first, cnt) := slice_sel n lo hi k in
+      match r with
+      | OErr => negb legal
+      | OInt m => legal && len_only && (m =? cnt)
+      | OInts l => legal && negb len_only && listZ_eqb l (spec_elems a c first k cnt)
+      | _ => false
+      end
+  | CEnum _ start n r =>
+      match r with
+      | OInts l => in_int64 start && listZ_eqb l (map (fun i => start + Z.of_nat i) (seq 0 n))
+      | OErr => negb (in_int64 start)
+      | _ => false
+      end
+  | CParse s base r =>
+      match spec_int_of_string s base, r with
+      | Some z, OInt w => z =? w
+      | None, OErr => true
+      | _, _ => false
+      end
+  | CPrint base z s =>
+      (* canonical text: optional '-', lower-case digits of the base without leading zeros, reading back as z *)
+      let body := match s with 45 :: t => t | _ => s end in
+      canonical_digits base body &&
+      (match s with 45 :: _ => z <? 0 | _ => 0 <=? z end) &&
+      optZ_eqb (spec_digits base body) (Some (Z.abs z))
   end.
